@@ -536,4 +536,372 @@ theorem decodeShort_spec (n first : Nat) (t : List Nat) :
       simp only []
       rw [e6]
 
+/-! ### the first-byte dispatch of `decode_packet` -/
+
+/-- the conditions of the dispatch chain for a given high nibble -/
+theorem dispatch_conds (first : Nat) :
+    ((shortTagLo ≤ first / 16 ∧ first / 16 ≤ shortTagHi) ↔ (4 ≤ first / 16 ∧ first / 16 ≤ 7)) ∧
+    ((vnTagLo ≤ first / 16 ∧ first / 16 ≤ vnTagHi) ↔ (8 ≤ first / 16 ∧ first / 16 ≤ 11)) ∧
+    (first / 16 = initialTag ↔ first / 16 = 12) ∧ (first / 16 = zeroRttTag ↔ first / 16 = 13) ∧
+    (first / 16 = handshakeTag ↔ first / 16 = 14) ∧ (first / 16 = retryTag ↔ first / 16 = 15) := by
+  unfold shortTagLo shortTagHi vnTagLo vnTagHi initialTag zeroRttTag handshakeTag retryTag
+  exact ⟨Iff.rfl, Iff.rfl, Iff.rfl, Iff.rfl, Iff.rfl, Iff.rfl⟩
+
+theorem decodePacket_shortForm (n first : Nat) (t : List Nat) (hf : first < 256) (h : first / 128 % 2 = 0) :
+    decodePacket n (first :: t) =
+      if first / 64 % 2 = 1 then decodeShort n first (first :: t) else .error .invalidPacket := by
+  obtain ⟨c1, c2, c3, c4, c5, c6⟩ := dispatch_conds first
+  simp only [decodePacket]
+  by_cases hfix : first / 64 % 2 = 1
+  · rw [if_pos (c1.mpr (by omega)), if_pos hfix]
+  · rw [if_neg (fun x => absurd (c1.mp x) (by omega)), if_neg (fun x => absurd (c2.mp x) (by omega)),
+      if_neg (fun x => absurd (c3.mp x) (by omega)), if_neg (fun x => absurd (c4.mp x) (by omega)),
+      if_neg (fun x => absurd (c5.mp x) (by omega)), if_neg (fun x => absurd (c6.mp x) (by omega)), if_neg hfix]
+
+theorem decodePacket_longTrunc (n first : Nat) (t : List Nat) (hf : first < 256) (h : first / 128 % 2 = 1)
+    (ht : t.length < 4) : decodePacket n (first :: t) = .error .eof := by
+  obtain ⟨c1, c2, c3, c4, c5, c6⟩ := dispatch_conds first
+  simp only [decodePacket, longPacket, decU32_short t ht]
+  rw [if_neg (fun x => absurd (c1.mp x) (by omega))]
+  have hhi : (8 ≤ first / 16 ∧ first / 16 ≤ 11) ∨ first / 16 = 12 ∨ first / 16 = 13 ∨ first / 16 = 14 ∨ first / 16 = 15 := by
+    omega
+  rcases hhi with h8 | h12 | h13 | h14 | h15
+  · rw [if_pos (c2.mpr h8)]
+  · rw [if_neg (fun x => absurd (c2.mp x) (by omega)), if_pos (c3.mpr h12)]
+  · rw [if_neg (fun x => absurd (c2.mp x) (by omega)), if_neg (fun x => absurd (c3.mp x) (by omega)), if_pos (c4.mpr h13)]
+  · rw [if_neg (fun x => absurd (c2.mp x) (by omega)), if_neg (fun x => absurd (c3.mp x) (by omega)),
+      if_neg (fun x => absurd (c4.mp x) (by omega)), if_pos (c5.mpr h14)]
+  · rw [if_neg (fun x => absurd (c2.mp x) (by omega)), if_neg (fun x => absurd (c3.mp x) (by omega)),
+      if_neg (fun x => absurd (c4.mp x) (by omega)), if_neg (fun x => absurd (c5.mp x) (by omega)), if_pos (c6.mpr h15)]
+
+/-- the long-header dispatch after a successful version peek -/
+theorem decodePacket_long (n first v0 v1 v2 v3 : Nat) (r1 : List Nat) (hf : first < 256)
+    (h : first / 128 % 2 = 1) :
+    decodePacket n (first :: v0 :: v1 :: v2 :: v3 :: r1) =
+      if ((v0 * 256 + v1) * 256 + v2) * 256 + v3 = 0 then decodeVn first (first :: v0 :: v1 :: v2 :: v3 :: r1)
+      else if first / 16 ≤ 11 then .error .invalidVn
+      else if first / 16 = 12 then
+        decodeInitial (((v0 * 256 + v1) * 256 + v2) * 256 + v3) (first :: v0 :: v1 :: v2 :: v3 :: r1)
+      else if first / 16 = 13 then
+        decodeZeroRtt (((v0 * 256 + v1) * 256 + v2) * 256 + v3) (first :: v0 :: v1 :: v2 :: v3 :: r1)
+      else if first / 16 = 14 then
+        decodeHandshake (((v0 * 256 + v1) * 256 + v2) * 256 + v3) (first :: v0 :: v1 :: v2 :: v3 :: r1)
+      else decodeRetry first (((v0 * 256 + v1) * 256 + v2) * 256 + v3) (first :: v0 :: v1 :: v2 :: v3 :: r1) := by
+  obtain ⟨c1, c2, c3, c4, c5, c6⟩ := dispatch_conds first
+  simp only [decodePacket, longPacket, decU32_cons4]
+  rw [if_neg (fun x => absurd (c1.mp x) (by omega))]
+  have hhi : (8 ≤ first / 16 ∧ first / 16 ≤ 11) ∨ first / 16 = 12 ∨ first / 16 = 13 ∨ first / 16 = 14 ∨ first / 16 = 15 := by
+    omega
+  by_cases hv : ((v0 * 256 + v1) * 256 + v2) * 256 + v3 = 0
+  · have hv1 : ((v0 * 256 + v1) * 256 + v2) * 256 + v3 = vnVersion := hv
+    have hv2 : vnVersion = ((v0 * 256 + v1) * 256 + v2) * 256 + v3 := hv.symm
+    rw [if_pos hv]
+    rcases hhi with h8 | h12 | h13 | h14 | h15
+    · rw [if_pos (c2.mpr h8), if_pos hv2]
+    · rw [if_neg (fun x => absurd (c2.mp x) (by omega)), if_pos (c3.mpr h12), if_pos hv1]
+    · rw [if_neg (fun x => absurd (c2.mp x) (by omega)), if_neg (fun x => absurd (c3.mp x) (by omega)),
+        if_pos (c4.mpr h13), if_pos hv1]
+    · rw [if_neg (fun x => absurd (c2.mp x) (by omega)), if_neg (fun x => absurd (c3.mp x) (by omega)),
+        if_neg (fun x => absurd (c4.mp x) (by omega)), if_pos (c5.mpr h14), if_pos hv1]
+    · rw [if_neg (fun x => absurd (c2.mp x) (by omega)), if_neg (fun x => absurd (c3.mp x) (by omega)),
+        if_neg (fun x => absurd (c4.mp x) (by omega)), if_neg (fun x => absurd (c5.mp x) (by omega)),
+        if_pos (c6.mpr h15), if_pos hv1]
+  · have hv1 : ¬ ((v0 * 256 + v1) * 256 + v2) * 256 + v3 = vnVersion := hv
+    have hv2 : ¬ vnVersion = ((v0 * 256 + v1) * 256 + v2) * 256 + v3 := fun e => hv e.symm
+    rw [if_neg hv]
+    rcases hhi with h8 | h12 | h13 | h14 | h15
+    · rw [if_pos (c2.mpr h8), if_neg hv2, if_pos (show first / 16 ≤ 11 by omega)]
+    · rw [if_neg (fun x => absurd (c2.mp x) (by omega)), if_pos (c3.mpr h12), if_neg hv1,
+        if_neg (show ¬ first / 16 ≤ 11 by omega), if_pos h12]
+    · rw [if_neg (fun x => absurd (c2.mp x) (by omega)), if_neg (fun x => absurd (c3.mp x) (by omega)),
+        if_pos (c4.mpr h13), if_neg hv1, if_neg (show ¬ first / 16 ≤ 11 by omega),
+        if_neg (show ¬ first / 16 = 12 by omega), if_pos h13]
+    · rw [if_neg (fun x => absurd (c2.mp x) (by omega)), if_neg (fun x => absurd (c3.mp x) (by omega)),
+        if_neg (fun x => absurd (c4.mp x) (by omega)), if_pos (c5.mpr h14), if_neg hv1,
+        if_neg (show ¬ first / 16 ≤ 11 by omega), if_neg (show ¬ first / 16 = 12 by omega),
+        if_neg (show ¬ first / 16 = 13 by omega), if_pos h14]
+    · rw [if_neg (fun x => absurd (c2.mp x) (by omega)), if_neg (fun x => absurd (c3.mp x) (by omega)),
+        if_neg (fun x => absurd (c4.mp x) (by omega)), if_neg (fun x => absurd (c5.mp x) (by omega)),
+        if_pos (c6.mpr h15), if_neg hv1, if_neg (show ¬ first / 16 ≤ 11 by omega),
+        if_neg (show ¬ first / 16 = 12 by omega), if_neg (show ¬ first / 16 = 13 by omega),
+        if_neg (show ¬ first / 16 = 14 by omega)]
+
+/-! ### inversion: what an accepted packet looks like -/
+
+/-- an accepted long-header packet, after both connection IDs (`d`, `s`) have been read and `r3` is
+    what follows them; `V` is the Version field, `blen` the length of the whole input -/
+inductive LongOk (first V blen : Nat) (d s r3 : List Nat) : Packet → List Nat → Prop
+  | vn : V = 0 → d.length ≤ 20 → s.length ≤ 20 → 4 ≤ r3.length → r3.length % 4 = 0 →
+      LongOk first V blen d s r3 (.versionNegotiation first d s r3) []
+  | initial (tl : Nat) (r4 tok r5 : List Nat) (off len : Nat) (next : List Nat) :
+      V ≠ 0 → first / 16 = 12 → Rfc.VarInt.parse r3 = some (tl, r4) → take? tl r4 = some (tok, r5) →
+      lengthAndProtected blen r5 = some ((off, len), next) →
+      LongOk first V blen d s r3 (.initial V d s tok off (off + len)) next
+  | zeroRtt (off len : Nat) (next : List Nat) :
+      V ≠ 0 → first / 16 = 13 → d.length ≤ 20 → s.length ≤ 20 →
+      lengthAndProtected blen r3 = some ((off, len), next) →
+      LongOk first V blen d s r3 (.zeroRtt V d s off (off + len)) next
+  | handshake (off len : Nat) (next : List Nat) :
+      V ≠ 0 → first / 16 = 14 → d.length ≤ 20 → s.length ≤ 20 →
+      lengthAndProtected blen r3 = some ((off, len), next) →
+      LongOk first V blen d s r3 (.handshake V d s off (off + len)) next
+  | retry : V ≠ 0 → first / 16 = 15 → d.length ≤ 20 → s.length ≤ 20 → 16 < r3.length →
+      LongOk first V blen d s r3 (.retry first V d s (r3.take (r3.length - 16)) (r3.drop (r3.length - 16))) []
+
+theorem decodeLongPlain_ok_inv {mk : List Nat → List Nat → Nat → Nat → Packet} {b : List Nat}
+    {first v0 v1 v2 v3 : Nat} {r1 : List Nat} (hb : BytesOk b)
+    (hbdef : b = first :: v0 :: v1 :: v2 :: v3 :: r1) {p : Packet} {rest : List Nat}
+    (h : decodeLongPlain mk b = .ok (p, rest)) :
+    ∃ d r2 s r3 off len, cid? r1 = some (d, r2) ∧ cid? r2 = some (s, r3) ∧ d.length ≤ 20 ∧ s.length ≤ 20 ∧
+      lengthAndProtected b.length r3 = some ((off, len), rest) ∧ p = mk d s off (off + len) := by
+  rw [decodeLongPlain_eq mk first v0 v1 v2 v3 r1 hb hbdef] at h
+  cases h1 : cid? r1 with
+  | none => rw [h1] at h; simp at h
+  | some x1 =>
+    obtain ⟨d, r2⟩ := x1
+    rw [h1] at h
+    simp only [] at h
+    by_cases hd : d.length ≤ 20
+    · rw [if_pos hd] at h
+      cases h2 : cid? r2 with
+      | none => rw [h2] at h; simp at h
+      | some x2 =>
+        obtain ⟨s, r3⟩ := x2
+        rw [h2] at h
+        simp only [] at h
+        by_cases hs : s.length ≤ 20
+        · rw [if_pos hs] at h
+          cases h3 : lengthAndProtected b.length r3 with
+          | none => rw [h3] at h; simp at h
+          | some x3 =>
+            obtain ⟨⟨off, len⟩, next⟩ := x3
+            rw [h3] at h
+            simp only [Except.ok.injEq, Prod.mk.injEq] at h
+            exact ⟨d, r2, s, r3, off, len, rfl, h2, hd, hs, by rw [← h.2]; exact h3, h.1.symm⟩
+        · rw [if_neg hs] at h; simp at h
+    · rw [if_neg hd] at h; simp at h
+
+theorem decodePacket_ok_inv (n : Nat) (b : List Nat) (p : Packet) (rest : List Nat) (hb : BytesOk b)
+    (h : decodePacket n b = .ok (p, rest)) :
+    (∃ first t, b = first :: t ∧ first / 128 % 2 = 0 ∧ first / 64 % 2 = 1 ∧ n ≤ t.length ∧ n ≤ 20 ∧
+        p = .short (spinOf first) (t.take n) (1 + n) (t.length + 1) ∧ rest = []) ∨
+    (∃ first v0 v1 v2 v3 r1 d r2 s r3, b = first :: v0 :: v1 :: v2 :: v3 :: r1 ∧ first / 128 % 2 = 1 ∧
+        first < 256 ∧ cid? r1 = some (d, r2) ∧ cid? r2 = some (s, r3) ∧
+        LongOk first (((v0 * 256 + v1) * 256 + v2) * 256 + v3) b.length d s r3 p rest) := by
+  match b, hb, h with
+  | [], _, h => simp [decodePacket] at h
+  | first :: t, hb, h =>
+    have hf : first < 256 := hb first (List.mem_cons_self ..)
+    by_cases hform : first / 128 % 2 = 0
+    · left
+      rw [decodePacket_shortForm n first t hf hform] at h
+      by_cases hfix : first / 64 % 2 = 1
+      · rw [if_pos hfix, decodeShort_spec] at h
+        by_cases h1 : t.length < n
+        · rw [if_pos h1] at h; simp at h
+        · rw [if_neg h1] at h
+          by_cases h2 : 20 < n
+          · rw [if_pos h2] at h; simp at h
+          · rw [if_neg h2] at h
+            simp only [Except.ok.injEq, Prod.mk.injEq] at h
+            exact ⟨first, t, rfl, hform, hfix, by omega, by omega, h.1.symm, h.2.symm⟩
+      · rw [if_neg hfix] at h; simp at h
+    · right
+      have hform1 : first / 128 % 2 = 1 := by omega
+      by_cases ht : t.length < 4
+      · rw [decodePacket_longTrunc n first t hf hform1 ht] at h; simp at h
+      · match t, ht, hb, h with
+        | [], ht, _, _ => exact absurd (by simp) ht
+        | [_], ht, _, _ => exact absurd (by simp) ht
+        | [_, _], ht, _, _ => exact absurd (by simp) ht
+        | [_, _, _], ht, _, _ => exact absurd (by simp) ht
+        | v0 :: v1 :: v2 :: v3 :: r1, _, hb, h =>
+          rw [decodePacket_long n first v0 v1 v2 v3 r1 hf hform1] at h
+          refine ⟨first, v0, v1, v2, v3, r1, ?_⟩
+          by_cases hv : ((v0 * 256 + v1) * 256 + v2) * 256 + v3 = 0
+          · rw [if_pos hv, decodeVn_eq first first v0 v1 v2 v3 r1 rfl] at h
+            cases h1 : cid? r1 with
+            | none => rw [h1] at h; simp at h
+            | some x1 =>
+              obtain ⟨d, r2⟩ := x1
+              rw [h1] at h
+              simp only [] at h
+              by_cases hd : d.length ≤ 20
+              · rw [if_pos hd] at h
+                cases h2 : cid? r2 with
+                | none => rw [h2] at h; simp at h
+                | some x2 =>
+                  obtain ⟨s, r3⟩ := x2
+                  rw [h2] at h
+                  simp only [] at h
+                  by_cases hs : s.length ≤ 20
+                  · rw [if_pos hs] at h
+                    by_cases hl : r3.length < 4
+                    · rw [if_pos hl] at h; simp at h
+                    · rw [if_neg hl] at h
+                      by_cases h4 : r3.length % 4 ≠ 0
+                      · rw [if_pos h4] at h; simp at h
+                      · rw [if_neg h4] at h
+                        simp only [Except.ok.injEq, Prod.mk.injEq] at h
+                        refine ⟨d, r2, s, r3, rfl, hform1, hf, rfl, h2, ?_⟩
+                        rw [← h.1, ← h.2]
+                        exact LongOk.vn hv hd hs (by omega) (by omega)
+                  · rw [if_neg hs] at h; simp at h
+              · rw [if_neg hd] at h; simp at h
+          · rw [if_neg hv] at h
+            by_cases h11 : first / 16 ≤ 11
+            · rw [if_pos h11] at h; simp at h
+            · rw [if_neg h11] at h
+              by_cases h12 : first / 16 = 12
+              · rw [if_pos h12, decodeInitial_eq _ first v0 v1 v2 v3 r1 hb rfl] at h
+                cases h1 : cid? r1 with
+                | none => rw [h1] at h; simp at h
+                | some x1 =>
+                  obtain ⟨d, r2⟩ := x1
+                  rw [h1] at h
+                  simp only [] at h
+                  cases h2 : cid? r2 with
+                  | none => rw [h2] at h; simp at h
+                  | some x2 =>
+                    obtain ⟨s, r3⟩ := x2
+                    rw [h2] at h
+                    simp only [] at h
+                    cases h3 : Rfc.VarInt.parse r3 with
+                    | none => rw [h3] at h; simp at h
+                    | some x3 =>
+                      obtain ⟨tl, r4⟩ := x3
+                      rw [h3] at h
+                      simp only [] at h
+                      cases h4 : take? tl r4 with
+                      | none => rw [h4] at h; simp at h
+                      | some x4 =>
+                        obtain ⟨tok, r5⟩ := x4
+                        rw [h4] at h
+                        simp only [] at h
+                        cases h5 : lengthAndProtected (first :: v0 :: v1 :: v2 :: v3 :: r1).length r5 with
+                        | none => rw [h5] at h; simp at h
+                        | some x5 =>
+                          obtain ⟨⟨off, len⟩, next⟩ := x5
+                          rw [h5] at h
+                          simp only [Except.ok.injEq, Prod.mk.injEq] at h
+                          refine ⟨d, r2, s, r3, rfl, hform1, hf, rfl, h2, ?_⟩
+                          rw [← h.1, ← h.2]
+                          exact LongOk.initial tl r4 tok r5 off len next hv h12 h3 h4 h5
+              · rw [if_neg h12] at h
+                by_cases h13 : first / 16 = 13
+                · rw [if_pos h13] at h
+                  obtain ⟨d, r2, s, r3, off, len, h1, h2, hd, hs, h3, hp⟩ := decodeLongPlain_ok_inv hb rfl h
+                  refine ⟨d, r2, s, r3, rfl, hform1, hf, h1, h2, ?_⟩
+                  rw [hp]
+                  exact LongOk.zeroRtt off len rest hv h13 hd hs h3
+                · rw [if_neg h13] at h
+                  by_cases h14 : first / 16 = 14
+                  · rw [if_pos h14] at h
+                    obtain ⟨d, r2, s, r3, off, len, h1, h2, hd, hs, h3, hp⟩ := decodeLongPlain_ok_inv hb rfl h
+                    refine ⟨d, r2, s, r3, rfl, hform1, hf, h1, h2, ?_⟩
+                    rw [hp]
+                    exact LongOk.handshake off len rest hv h14 hd hs h3
+                  · rw [if_neg h14, decodeRetry_eq first _ first v0 v1 v2 v3 r1 rfl] at h
+                    have h15 : first / 16 = 15 := by omega
+                    cases h1 : cid? r1 with
+                    | none => rw [h1] at h; simp at h
+                    | some x1 =>
+                      obtain ⟨d, r2⟩ := x1
+                      rw [h1] at h
+                      simp only [] at h
+                      by_cases hd : d.length ≤ 20
+                      · rw [if_pos hd] at h
+                        cases h2 : cid? r2 with
+                        | none => rw [h2] at h; simp at h
+                        | some x2 =>
+                          obtain ⟨s, r3⟩ := x2
+                          rw [h2] at h
+                          simp only [] at h
+                          by_cases hs : s.length ≤ 20
+                          · rw [if_pos hs] at h
+                            by_cases h16 : r3.length > 16
+                            · rw [if_pos h16] at h
+                              simp only [Except.ok.injEq, Prod.mk.injEq] at h
+                              refine ⟨d, r2, s, r3, rfl, hform1, hf, rfl, h2, ?_⟩
+                              rw [← h.1, ← h.2]
+                              exact LongOk.retry hv h15 hd hs h16
+                            · rw [if_neg h16] at h; simp at h
+                          · rw [if_neg hs] at h; simp at h
+                      · rw [if_neg hd] at h; simp at h
+
+/-- `Length (i)` and the bytes it covers, when the field starts at offset `k` of `b` -/
+theorem lap_suffix {b : List Nat} {k off len : Nat} {next : List Nat} (hb : BytesOk b) (hk : k ≤ b.length)
+    (h : lengthAndProtected b.length (b.drop k) = some ((off, len), next)) :
+    ∃ j, 1 ≤ j ∧ off = k + j ∧ off + len ≤ b.length ∧ next = b.drop (off + len) ∧
+      Codec.VarInt.decode (b.drop k) = some (len, b.drop off) := by
+  unfold lengthAndProtected at h
+  cases hv : Rfc.VarInt.parse (b.drop k) with
+  | none => rw [hv] at h; simp at h
+  | some x =>
+    obtain ⟨l, r⟩ := x
+    rw [hv] at h
+    simp only [] at h
+    have hv' : Codec.VarInt.decode (b.drop k) = some (l, r) := by rw [varint_eq _ (bytesOk_drop hb k)]; exact hv
+    obtain ⟨j, hj1, hj2, hr⟩ := varint_suffix hv'
+    rw [List.length_drop] at hj2
+    have hr' : r = b.drop (k + j) := by rw [hr, List.drop_drop]
+    cases ht : take? l r with
+    | none => rw [ht] at h; simp at h
+    | some y =>
+      obtain ⟨c, nx⟩ := y
+      rw [ht] at h
+      simp only [Option.some.injEq, Prod.mk.injEq] at h
+      obtain ⟨⟨hoff, hlen⟩, hnext⟩ := h
+      obtain ⟨hle, _, hnx⟩ := take?_some ht
+      have hrl : r.length = b.length - (k + j) := by rw [hr', List.length_drop]
+      have hoff' : off = k + j := by rw [← hoff, hrl]; omega
+      refine ⟨j, hj1, hoff', ?_, ?_, ?_⟩
+      · rw [← hlen]; omega
+      · rw [← hnext, hnx, hr', List.drop_drop, hoff', hlen]
+      · rw [hv', hoff', ← hr', hlen]
+
+/-- the Initial token field: where the Length field starts -/
+theorem token_suffix {b : List Nat} {k tl : Nat} {r4 tok r5 : List Nat} (hb : BytesOk b) (hk : k ≤ b.length)
+    (h3 : Rfc.VarInt.parse (b.drop k) = some (tl, r4)) (h4 : take? tl r4 = some (tok, r5)) :
+    ∃ k5, k < k5 ∧ k5 ≤ b.length ∧ r5 = b.drop k5 := by
+  have h3' : Codec.VarInt.decode (b.drop k) = some (tl, r4) := by rw [varint_eq _ (bytesOk_drop hb k)]; exact h3
+  obtain ⟨j, hj1, hj2, hr4⟩ := varint_suffix h3'
+  rw [List.length_drop] at hj2
+  obtain ⟨hle, _, hr5⟩ := take?_some h4
+  rw [hr4, List.length_drop, List.length_drop] at hle
+  exact ⟨k + j + tl, by omega, by omega, by rw [hr5, hr4, List.drop_drop, List.drop_drop, Nat.add_assoc]⟩
+
+/-- the protected region of an accepted long-header packet that carries a Length field:
+    `lenOff` is where the Length varint starts -/
+theorem longOk_length {b : List Nat} {first V : Nat} {d s r3 : List Nat} {k : Nat} {p : Packet} {rest : List Nat}
+    (hb : BytesOk b) (hk : k ≤ b.length) (hk7 : 7 ≤ k) (hr3 : r3 = b.drop k)
+    (h : LongOk first V b.length d s r3 p rest) :
+    (rest = [] ∧ ((∃ tag dd ss sup, p = .versionNegotiation tag dd ss sup) ∨ (∃ tag v dd ss tok it, p = .retry tag v dd ss tok it))) ∨
+    (∃ lenOff hl pl, 7 ≤ lenOff ∧ lenOff < hl ∧ hl ≤ pl ∧ pl ≤ b.length ∧ rest = b.drop pl ∧
+      Codec.VarInt.decode (b.drop lenOff) = some (pl - hl, b.drop hl) ∧
+      ((∃ tok, p = .initial V d s tok hl pl) ∨ p = .zeroRtt V d s hl pl ∨ p = .handshake V d s hl pl)) := by
+  cases h with
+  | vn => exact Or.inl ⟨rfl, Or.inl ⟨_, _, _, _, rfl⟩⟩
+  | retry => exact Or.inl ⟨rfl, Or.inr ⟨_, _, _, _, _, _, rfl⟩⟩
+  | initial tl r4 tok r5 off len next hv h12 h3 h4 h5 =>
+    right
+    rw [hr3] at h3
+    obtain ⟨k5, hk5a, hk5b, hr5⟩ := token_suffix hb hk h3 h4
+    rw [hr5] at h5
+    obtain ⟨j, hj1, hoff, hle, hnext, hdec⟩ := lap_suffix hb hk5b h5
+    refine ⟨k5, off, off + len, by omega, by omega, by omega, hle, hnext, ?_, Or.inl ⟨tok, rfl⟩⟩
+    rw [Nat.add_sub_cancel_left]; exact hdec
+  | zeroRtt off len next hv h13 hd hs h5 =>
+    right
+    rw [hr3] at h5
+    obtain ⟨j, hj1, hoff, hle, hnext, hdec⟩ := lap_suffix hb hk h5
+    refine ⟨k, off, off + len, hk7, by omega, by omega, hle, hnext, ?_, Or.inr (Or.inl rfl)⟩
+    rw [Nat.add_sub_cancel_left]; exact hdec
+  | handshake off len next hv h14 hd hs h5 =>
+    right
+    rw [hr3] at h5
+    obtain ⟨j, hj1, hoff, hle, hnext, hdec⟩ := lap_suffix hb hk h5
+    refine ⟨k, off, off + len, hk7, by omega, by omega, hle, hnext, ?_, Or.inr (Or.inr rfl)⟩
+    rw [Nat.add_sub_cancel_left]; exact hdec
+
 end Quic.Proofs.PacketHeader
